@@ -11,9 +11,11 @@ mod child;
 mod ctx;
 mod e1;
 mod e2;
+mod e3;
 mod model;
 mod p_e1;
 mod p_e2;
+mod p_e3;
 mod rng;
 
 use std::sync::Arc;
@@ -135,6 +137,7 @@ macro_rules! dispatch {
             "C01" => $f(p_e2::C01, $($arg),*),
             "C02" => $f(p_e2::C02, $($arg),*),
             "C04" => $f(p_e1::C04, $($arg),*),
+            "C05" => $f(p_e3::C05, $($arg),*),
             "C06" => $f(p_e1::C06, $($arg),*),
             "C07" => $f(p_e1::C07, $($arg),*),
             "C08" => $f(p_e2::C08, $($arg),*),
